@@ -34,19 +34,17 @@ def word16Of : Bytes → UInt16
 
 /-- `AVP::hide`; `rv` is the RandomVector's four octets as a word, `ap` the 16 alignment octets -/
 def hide (a : AVP) (secret : Bytes) (rv : UInt32) (lp ap : Bytes) : Except Fault AVP :=
-  match a with
-  | .hidden .. => .ok a
-  | _ =>
-    let img := a.payload
-    let attrOctets := img.take 2
-    let length := img.length + 6 - 2
-    if length > 1023 then .error .panic else
-    let input := be16 (UInt16.ofNat length) ++ img.drop 2 ++ lp
-    let padLen := (16 - input.length % 16) % 16
-    let input := input ++ ap.take padLen
-    let n := input.length / 16
-    let key1 := md5 (attrOctets ++ secret ++ be32 rv)
-    .ok (.hidden (word16Of attrOctets) (encChain md5 secret key1 (chunks n input)).flatten)
+  if a.isHidden then .ok a else
+  let img := a.payload
+  let attrOctets := img.take 2
+  let length := img.length + 6 - 2
+  if length > 1023 then .error .panic else
+  let input := be16 (UInt16.ofNat length) ++ img.drop 2 ++ lp
+  let padLen := (16 - input.length % 16) % 16
+  let input := input ++ ap.take padLen
+  let n := input.length / 16
+  let key1 := md5 (attrOctets ++ secret ++ be32 rv)
+  .ok (.hidden (word16Of attrOctets) (encChain md5 secret key1 (chunks n input)).flatten)
 
 /-- `AVP::reveal`: outer `Except` = panic/UB, inner = the `DecodeResult` -/
 def reveal (a : AVP) (secret : Bytes) (rv : UInt32) : Except Fault (Except DErr AVP) :=
